@@ -10,6 +10,11 @@ model   : (a) framing: Lean consumer+framer models for separator / fixed-size fr
               class hierarchy; the theorems over it are re-checked by `lake build`; every exception class the real libraries
               raised during this run must be inside the declared alphabet (assumption check)
 oracle  : only pkt / parse errors; each error consumes >= 1 byte (number of items <= number of bytes); no hang.
+session 3: every serializer also in debug=True mode (bare, wrapped and as the wrapped serializer), file toys with every
+          expected_load_error set / peeking / read-ahead loaders, structurally extreme JSON x debug x use_lines in the corpus;
+          "carrying the unread remainder": streams of well-delimited frames known by construction (vlib/genericfr.py): the valid
+          frames behind a malformed one are still delivered (mode stream), and the remainder object itself equals the bytes
+          after the malformed frame (mode direct: protocol generators driven by hand).
 """
 from __future__ import annotations
 
@@ -51,6 +56,7 @@ RULE = ("case = serializer x entry point x input (random / mutated valid stream 
 
 _aux: dict[str, Any] = {}
 RAISED: dict[str, int] = {}
+BIG_SKIPPED = [0]
 
 
 class _Hang(BaseException):
@@ -272,6 +278,11 @@ def model_input(case: dict, real: list[str]):
     if case["mode"] == "oneshot":
         return None
     path = "buffered" if case["mode"] == "buffered" else "copy"
+    if len(case["data"]) > 2 * 16384 and case.get("origin") == "extreme" and int(core.case_digest(case)[:4], 16) % 3:
+        # the Lean separator / fixed-size framer models are quadratic in the frame length (about 4 s for one 60 KB frame):
+        # generated inputs above 16 KB go through the model in one case out of three (the oracle judges all of them)
+        BIG_SKIPPED[0] += 1
+        return None
     head = sers.model_head(case["spec"], path, case.get("hint", 0))
     aux = _aux.get(core.case_digest(case))
     if head is None or aux is None or any(ln.startswith(("escape", "hang", "loop")) for ln in real):
@@ -504,6 +515,7 @@ def _debug_corpus() -> list[dict]:
         ({"k": "autosep", "sep": "3c7c3e", "limit": 16, "check": True, "debug": True}, b"\xffab<|>ok<|>" + b"x" * 40 + b"<|>"),
         ({"k": "fixed", "size": 3, "debug": True}, b"\xffabok1\xff"),
         ({"k": "pickle", "debug": True}, b"\x80\x04nonsense"),
+        ({"k": "pickle", "debug": True}, b"\x80\x04K\x01.\x80\x04K\x02."),          # a complete pickle followed by extra data
         ({"k": "b64", "inner": {"k": "pickle", "debug": True}, "alphabet": "standard", "checksum": True, "separator": "3c7c3e", "limit": 64,
           "debug": True}, b"QUJ<|>QUJD<|>!!!!<|" + b"A" * 80 + b"<|>"),
         ({"k": "zlib", "inner": {"k": "line", "newline": "LF", "limit": 65536, "encoding": "utf-8", "debug": True}, "debug": True},
@@ -571,6 +583,7 @@ def extra_coverage(stats) -> dict:
     from translate import exc_tables
     return {"exception_classes_raised_by_libraries": dict(sorted(RAISED.items())),
             "alphabet_violations": exc_tables.outside_alphabet(RAISED),
+            "model_runs_skipped_big_extreme_inputs": BIG_SKIPPED[0],
             "model_runs_by_framer": dict(sorted(sers.MODEL_RUNS.items()))}  # ---- raw JSON framer ----
 
 
